@@ -364,6 +364,13 @@ func (g *vSessWorld) step(name string, args map[string]interface{}) (vResp, [][]
 			g.okta.users[u].push = "approved"
 		}
 		g.okta.mu.Unlock()
+	case "OktaDecline":
+		u := vStr(args, "user")
+		g.okta.mu.Lock()
+		if g.okta.users[u].push == "waiting" {
+			g.okta.users[u].push = vStr(args, "how")
+		}
+		g.okta.mu.Unlock()
 	case "OktaPoll", "OktaOTP":
 		g.cred(&q, args)
 		q.Path = oktaPollCheckPath
